@@ -12,7 +12,7 @@
 import os
 import re
 import textwrap
-from math import radians, cos, sin, sqrt
+from math import radians, cos, sin, sqrt, floor
 from shutil import get_terminal_size
 
 from time import time, perf_counter
@@ -144,11 +144,9 @@ def split_fvar_and_parameter(parameter: float) -> tuple:
     >>> split_fvar_and_parameter(-10.33333333)
     (-1, -0.33333333)
     """
-    fvar = abs(int(str(parameter).split('.')[0])) // 10  # The free variable number e.g. 2
-    value = abs(float(parameter)) % 10  # The value with which the free variable was multiplied e.g. 0.5
-    if parameter < 0:
-        value *= -1
-        fvar *= -1
+    # SHELXL codes a parameter as 10*m + p with -5 <= p < 5:
+    fvar = floor((float(parameter) + 5) / 10)  # The free variable number m e.g. 2
+    value = float(parameter) - 10 * fvar  # The value p with which the free variable was multiplied e.g. 0.5
     return fvar, round(value, 8)
 
 
